@@ -33,7 +33,9 @@ func init() {
 			"[throttle, tee, subroute, proxy_protocol, tls, echo] plus recording take/sink consumers, PRF stream of length 0..40KiB, " +
 			"segmentation class); oracle: concatenation of what each consumer read == the expected slice of the client's stream " +
 			"(tee branch == main chain from the tee point; echo == stream). non-trivial = some matcher needed >=1 byte and some consumer read >=1 byte; " +
-			"distinct = hash(config shape, segmentation class, stream-length bucket)",
+			"distinct = hash(config shape, segmentation class, stream-length bucket). udp children: 1-3 clients of a scripted packet listener send 1-12 datagrams of 1..4096 bytes each (interleaved, " +
+			"mostly queued at once); routes: optional non-terminal take route (with or without a matcher that needs up to 6000 bytes), consumer route (with or without such a matcher) reading " +
+			"exactly the rest with read sizes 1..9000, optionally inside a subroute; oracle: take read the first bytes, the consumer the rest of the client's datagram stream",
 		Assumptions: []string{
 			"scripted in-memory transport (vnet) stands in for TCP; segments are delivered one per Read",
 			"third-party handlers are out of scope; only shipped wrapping handlers and harness consumers are composed",
@@ -46,6 +48,7 @@ func init() {
 					{Name: "plain", Mode: "plain", Shards: 12, Timeout: 40 * time.Minute, Env: []string{"VERIF_POISON=1"}},
 					{Name: "tls", Mode: "tls", Shards: 3, Timeout: 40 * time.Minute, Env: []string{"VERIF_POISON=1"}},
 					{Name: "realtcp", Mode: "realtcp", Shards: 4, Timeout: 40 * time.Minute, Env: []string{"VERIF_POISON=1"}},
+					{Name: "udp", Mode: "udp", Shards: 2, Timeout: 40 * time.Minute, Env: []string{"VERIF_POISON=1"}},
 					{Name: "plain-race", Mode: "plain-race", Race: true, Shards: 4, Timeout: 40 * time.Minute},
 				}
 			}
@@ -53,6 +56,7 @@ func init() {
 				{Name: "plain", Mode: "plain", Shards: 10, Timeout: 8 * time.Minute, Env: []string{"VERIF_POISON=1"}},
 				{Name: "tls", Mode: "tls", Shards: 2, Timeout: 8 * time.Minute, Env: []string{"VERIF_POISON=1"}},
 				{Name: "realtcp", Mode: "realtcp", Shards: 2, Timeout: 8 * time.Minute, Env: []string{"VERIF_POISON=1"}},
+				{Name: "udp", Mode: "udp", Shards: 1, Timeout: 8 * time.Minute, Env: []string{"VERIF_POISON=1"}},
 			}
 		},
 		Run:    run,
@@ -521,6 +525,8 @@ func run(c *fw.Ctx) {
 		runTLS(c, canary)
 	case "realtcp":
 		runRealTCP(c, canary)
+	case "udp":
+		runUDP(c)
 	default:
 		runPlain(c, canary)
 	}
@@ -814,6 +820,9 @@ func runTLS(c *fw.Ctx, canary *oracle.Canary) {
 }
 
 func replay(c *fw.Ctx, raw json.RawMessage) {
+	if replayUDP(c, raw) {
+		return
+	}
 	var w struct {
 		Case *Case `json:"case"`
 	}
